@@ -16,7 +16,7 @@ type hostileWitness = sumdbHostile
 // VerifFeedHostile: one real feed cycle of the Pixel feeder against hostile sizes / hash lengths.
 func VerifFeedHostile() {
 	origin, key := rt.Str("origin"), rt.U64("logkey")
-	l := config.Log{ID: rt.Str("id"), Origin: origin, Verifier: &rt.Verifier{K: key, N: origin}, URL: "https://pixel.example/"}
+	l := config.Log{ID: rt.Str("id"), Origin: origin, Verifier: &rt.Verifier{K: key, N: rt.UFStr("keyName", key)}, URL: "https://pixel.example/"}
 	latest := rt.Bytes("latestRaw")
 	to, from := sumdb.VerifHostileSizes()
 	rt.Name("to.size", to)
